@@ -130,6 +130,20 @@ def _assigned(stmt):
     return out
 
 
+def _assign_count(fn, name):
+    """number of binding sites of the local `name` in `fn` (assignments, loop / comprehension targets, walrus)"""
+    k = 0
+    for n in ast.walk(fn):
+        tg = []
+        if isinstance(n, ast.Assign):
+            tg = n.targets
+        elif isinstance(n, (ast.AugAssign, ast.AnnAssign, ast.NamedExpr, ast.For, ast.comprehension)):
+            tg = [n.target]
+        for t in tg:
+            k += sum(1 for e in ast.walk(t) if isinstance(e, ast.Name) and e.id == name)
+    return k
+
+
 def _harmless(stmt, tracked):
     """statement that cannot change the schedule: no escape from the loops, no write to a tracked name, no call of
     train_step / shuffle / a callback"""
@@ -223,6 +237,14 @@ def lift_fit(fn):
     pre = body[:li]
     post = body[li + 1:-1]
     n_src = "X.shape[0]"
+    # locals that merely name the number of rows (`n = X.shape[0]`, `n_samples = len(X)`), assigned once before the loops
+    n_alias = {}
+    for st in pre:
+        if isinstance(st, ast.Assign) and len(st.targets) == 1 and isinstance(st.targets[0], ast.Name) \
+                and _src(st.value) in ("X.shape[0]", "len(X)"):
+            nm = st.targets[0].id
+            if _assign_count(fn, nm) == 1:
+                n_alias[nm] = "n"
 
     # ---- the slice and the train_step call
     inner_body = inner.body
@@ -258,7 +280,7 @@ def lift_fit(fn):
     bt_names = None
     for st in pre:
         if isinstance(st, ast.Assign) and len(st.targets) == 1 and _src(st.targets[0]) == v_batches:
-            bt_names = _names_in(st.value) - {"ceil", "floor", "math", "X", "len", "int", "min", "max"}
+            bt_names = _names_in(st.value) - {"ceil", "floor", "math", "X", "len", "int", "min", "max"} - set(n_alias)
     if bt_names is None or len(bt_names) != 1:
         _bad(f"fit: `{v_batches}` must be defined once before the loops from X.shape[0] and one local (the batch size)")
     v_bsize = next(iter(bt_names))
@@ -268,9 +290,9 @@ def lift_fit(fn):
     tracked = {v_epochs, v_batches, v_bsize, v_epoch, v_batch, v_slice, "X", "y", "A", "self.n_iter_", "self.max_iter",
                "self.epochs", "self.batch_size", "self.callbacks_", "self.shuffle", "self"}
 
-    ex_bs = Expr({"self.batch_size": "self_batch_size", n_src: "n"}, "fit/batch_size")
+    ex_bs = Expr({"self.batch_size": "self_batch_size", n_src: "n", **n_alias}, "fit/batch_size")
     i_bs, e_bs, s_bs = _local_def(defs_scope, v_bsize, ex_bs, "fit")
-    ex_bt = Expr({n_src: "n", v_bsize: "batch_size"}, "fit/batches")
+    ex_bt = Expr({n_src: "n", v_bsize: "batch_size", **n_alias}, "fit/batches")
     i_bt, e_bt, s_bt = _local_def(defs_scope, v_batches, ex_bt, "fit")
     ex_ep = Expr({"self.epochs": "self_epochs", "self.max_iter": "self_max_iter", v_batches: "batches"}, "fit/epochs")
     i_ep, e_ep, s_ep = _local_def(defs_scope, v_epochs, ex_ep, "fit")
@@ -344,7 +366,7 @@ def lift_fit(fn):
             _bad(f"fit: statement in the epoch loop may change the schedule: {_src(st)[:100]}")
 
     # ---- events of the batch loop
-    ex_sl = Expr({v_batch: "batch", v_bsize: "batch_size", n_src: "n"}, "fit/slice")
+    ex_sl = Expr({v_batch: "batch", v_bsize: "batch_size", n_src: "n", **n_alias}, "fit/slice")
     e_lo, e_hi = ex_sl.int(sst.value.args[0]), ex_sl.int(sst.value.args[1])
     ex_it = Expr({"self.n_iter_": "n_iter"}, "fit/n_iter_")
     ex_mx = Expr({"self.n_iter_": "n_iter", "self.max_iter": "self_max_iter"}, "fit/max_iter test")
